@@ -292,7 +292,7 @@ PROPS = {
     ),
     "C20": dict(
         bin="c20",
-        lanes=lanes(quick_scale=0.25, thorough_scale=4.0,
+        lanes=lanes(quick_scale=2.0, thorough_scale=12.0,
                     miri=dict(light=0.0005, scale=0.0003, widths=[0, 1, 7, 64, 65, 128, 256]), miri_quick=False),
         primary_lane="checked",
         rule="Differential cases: for every width and operand tuple each facade (six operator shapes of + - * / % & | ^, unary - !, "
